@@ -35,7 +35,30 @@ _Val.declare("VStr", ("s", z3.StringSort()))
 _Val.declare("VRef", ("r", z3.IntSort()))
 Val = _Val.create()
 VNone, VBool, VInt, VStr, VRef = Val.VNone, Val.VBool, Val.VInt, Val.VStr, Val.VRef
-SeqV = z3.SeqSort(Val)
+SeqV = z3.SeqSort(Val)  # (unused: list contents are arrays + length, see PSeq)
+ArrV = z3.ArraySort(z3.IntSort(), Val)
+
+
+class PSeq:
+    """A finite sequence of values: array of elements + length (list contents, spec sequences)."""
+
+    __slots__ = ("arr", "n")
+
+    def __init__(self, arr, n):
+        self.arr, self.n = arr, n
+
+    @staticmethod
+    def empty():
+        return PSeq(z3.K(z3.IntSort(), VNone), z3.IntVal(0))
+
+    def append(self, x):
+        return PSeq(z3.Store(self.arr, self.n, x), self.n + 1)
+
+    def at(self, i):
+        return self.arr[i]
+
+    def set_at(self, i, x):
+        return PSeq(z3.Store(self.arr, i, x), self.n)
 I = z3.IntSort()
 B = z3.BoolSort()
 S = z3.StringSort()
@@ -103,7 +126,7 @@ class SV:
         self.kind = kind  # None | 'none' | 'bool' | 'int' | 'str' | 'ref' | 'py' | 'tuple' | 'seq' | 'closure'
         self.ty = ty  # type descriptor (see TY_*), may be None
         self.py = py  # python-level constant (module table, class, enum member, function name)
-        self.items = items  # for kind 'tuple': list of SV; for 'seq': z3 Seq(Val) term
+        self.items = items  # for kind 'tuple': list of SV; for 'seq': a PSeq
 
     def __repr__(self):
         return f"SV({self.kind},{self.v if self.kind not in ('py','tuple','seq','closure') else (self.py or self.items)})"
@@ -239,7 +262,8 @@ class Heap:
 
     def __init__(self, tag="0"):
         self.fields: Dict[str, Any] = {}
-        self.L = z3.Const(f"L!{tag}", z3.ArraySort(I, SeqV))
+        self.LA = z3.Const(f"LA!{tag}", z3.ArraySort(I, ArrV))
+        self.LN = z3.Const(f"LN!{tag}", z3.ArraySort(I, I))
         self.DK = z3.Const(f"DK!{tag}", z3.ArraySort(I, z3.ArraySort(S, B)))
         self.DV = z3.Const(f"DV!{tag}", z3.ArraySort(I, z3.ArraySort(S, Val)))
         self.A = z3.Int(f"A!{tag}")
@@ -248,8 +272,15 @@ class Heap:
     def copy(self) -> "Heap":
         h = Heap.__new__(Heap)
         h.fields = dict(self.fields)
-        h.L, h.DK, h.DV, h.A, h.tag = self.L, self.DK, self.DV, self.A, self.tag
+        h.LA, h.LN, h.DK, h.DV, h.A, h.tag = self.LA, self.LN, self.DK, self.DV, self.A, self.tag
         return h
+
+    def lseq(self, r) -> "PSeq":
+        return PSeq(self.LA[r], self.LN[r])
+
+    def set_lseq(self, r, ps: "PSeq"):
+        self.LA = z3.Store(self.LA, r, ps.arr)
+        self.LN = z3.Store(self.LN, r, ps.n)
 
     def field(self, f):
         if f not in self.fields:
